@@ -5,4 +5,5 @@ let () =
   | _ :: "c15" :: path :: mm :: _ -> Spec_cmds.c15 path mm
   | _ :: "c17" :: path :: mm :: _ -> Spec_cmds.c17 path mm
   | _ :: "c14" :: path :: mm :: _ -> Spec_cmds.c14 path mm
+  | _ :: "sim" :: path :: mm :: _ -> Sim_cmds.sim path mm
   | _ -> prerr_endline "usage: oracle_spec <command> <cases> <mismatch-out>"; exit 2
